@@ -200,6 +200,7 @@ Proof.
     { intros h0 kid h1 r1 P0 Hk E0. exact (IH h0 this kid ref h1 r1 P0 Ht Hk E0). }
     destruct (n_ty (nd h this)); try (intros [= <- _]; assumption);
       try (apply (WF_pins_body n (fun h0 kid => ins fuel cfg_fixed h0 this kid ref)); assumption).
+    destruct (_ && _ && _); [intros [= <- _]; assumption|].
     destruct (_ && _); [intros [= <- _]; assumption|].
     destruct (pins_body _ _ _ _ _ _) as [h1 r1] eqn:E.
     pose proof (WF_pins_body n _ _ _ _ _ _ _ Hi P Ht Hn E) as P1.
@@ -227,7 +228,8 @@ Proof.
   assert (P2 : WF n h2).
   { revert E2. destruct (ntype_eqb (n_ty (nd h old)) TElem); intros E2;
       [exact (WF_p_remove n h1 this old h2 r2 P1 Ht E2)|exact (WF_v_remove n h1 this old h2 r2 P1 Ht E2)]. }
-  destruct (is_err r2); intros [= <- _]; [apply WF_upd_pres; auto with upres|assumption].
+  destruct (is_err r2); [intros [= <- _]; apply WF_upd_pres; auto with upres|].
+  destruct (_ && _ && _); intros [= <- _]; [apply WF_upd_pres; auto with upres|assumption].
 Qed.
 
 (** ------------------------------------------------------------ allocation *)
@@ -289,6 +291,32 @@ Lemma sib_pres_oelem v : sib_pres (set_oelem v). Proof. intros []; split; reflex
 Lemma sib_pres_dead v : sib_pres (set_dead v). Proof. intros []; split; reflexivity. Qed.
 #[export] Hint Resolve sib_pres_oelem sib_pres_dead : upres.
 
+Lemma sib_pres_udata v : sib_pres (set_udata v). Proof. intros []; split; reflexivity. Qed.
+Lemma sib_pres_hasud v : sib_pres (set_hasud v). Proof. intros []; split; reflexivity. Qed.
+Lemma sib_pres_isid v : sib_pres (set_isid v). Proof. intros []; split; reflexivity. Qed.
+Lemma sib_pres_idtab v : sib_pres (set_idtab v). Proof. intros []; split; reflexivity. Qed.
+Lemma sib_pres_idnum v : sib_pres (set_idnum v). Proof. intros []; split; reflexivity. Qed.
+Lemma sib_pres_released : sib_pres set_released. Proof. intros []; split; reflexivity. Qed.
+#[export] Hint Resolve sib_pres_udata sib_pres_hasud sib_pres_isid sib_pres_idtab sib_pres_idnum sib_pres_released : upres.
+
+Lemma WF_id_add : forall n h a, WF n h -> WF n (id_add h a).
+Proof. intros n h a P. unfold id_add. apply WF_upd_pres; auto with upres. apply WF_upd_pres; auto with upres. Qed.
+Lemma WF_id_remove : forall n h a, WF n h -> WF n (id_remove h a).
+Proof. intros n h a P. unfold id_remove. destruct (id_probe_attr _ _ _ _ _); [apply WF_upd_pres; auto with upres|exact P]. Qed.
+Lemma WF_attr_id_on : forall n h a, WF n h -> WF n (attr_id_on h a).
+Proof. intros n h a P. unfold attr_id_on. destruct (n_isid _); [exact P|]. apply WF_id_add. apply WF_upd_pres; auto with upres. Qed.
+Lemma WF_attr_id_off : forall n h a, WF n h -> WF n (attr_id_off h a).
+Proof. intros n h a P. unfold attr_id_off. destruct (n_isid _); [|exact P]. apply WF_upd_pres; auto with upres. apply WF_id_remove; exact P. Qed.
+Lemma WF_kill : forall n fuel h x, WF n h -> WF n (kill fuel h x).
+Proof.
+  induction fuel as [|fuel IH]; intros h x P; cbn [kill]; [exact P|].
+  assert (P1 : WF n (upd h x set_released)) by (apply WF_upd_pres; auto with upres).
+  revert P1. generalize (upd h x set_released). generalize (kids h x ++ n_attrs (nd h x)). intros l.
+  induction l as [|k l IHl]; intros h0 P0; cbn [fold_left]; [exact P0|]. apply IHl. apply IH. exact P0.
+Qed.
+Lemma WF_fold_id_off : forall n l h, WF n h -> WF n (fold_left attr_id_off l h).
+Proof. induction l as [|a l IH]; intros h P; cbn [fold_left]; [exact P|]. apply IH. apply WF_attr_id_off. exact P. Qed.
+
 Ltac splitw := match goal with |- (if ?b then _ else _) = _ -> _ => destruct b eqn:Ev; [|same] end.
 
 Lemma step_GW : forall h o h' r, WFheap h -> link_op o = true -> covered h o = true -> step h o = (h', r) -> GW h h'.
@@ -322,18 +350,32 @@ Proof.
     eapply GW_cd_insert; [exact (proj1 G1)|exact E2].
   - splitw. unfold cd_substring. destruct (N.ltb _ _); same.
   - splitw. unfold get_attribute. same.
-  - splitw. unfold set_attribute_node, amap_set. destruct (n_ro (nd h e)); [same|].
+  - splitw. unfold set_attribute_node, amap_set. change (fix_setattr_id cfg_fixed) with true. cbv iota.
+    destruct (n_ro (nd h e)); [same|].
     destruct (negb (oid_eqb _ _)); [same|]. destruct (match n_oelem (nd h a) with Some o => _ | None => false end); [same|].
     assert (P1 : WF (length h) (upd h a (set_oelem (Some e)))) by (apply WF_upd_pres; auto with upres; apply WF_self; assumption).
     match goal with |- context [upd ?H e (set_attrs ?L)] =>
       assert (P2 : WF (length h) (upd H e (set_attrs L))) by (apply WF_upd_pres; auto with upres) end.
     destruct (amap_find _ _ _) as [p|]; [|intros [= <- _]; apply GW_of; exact P2].
-    destruct (Nat.eqb p a); intros [= <- _]; apply GW_of; [exact P2|]. apply WF_upd_pres; auto with upres.
+    destruct (Nat.eqb p a); intros [= <- _]; apply GW_of; [exact P2|]. apply WF_attr_id_off. apply WF_upd_pres; auto with upres.
   - splitw. unfold remove_attribute_node. destruct (n_ro _); [same|].
     destruct (if n_nsimpl (nd h a) then _ else _) as [f|]; [|same].
-    destruct (Nat.eqb f a); [|same]. intros [= <- _]. apply GW_of.
+    destruct (Nat.eqb f a); [|same]. intros [= <- _]. apply GW_of. apply WF_attr_id_off.
     apply WF_upd_pres; auto with upres. apply WF_upd_pres; auto with upres. apply WF_self; assumption.
   - splitw. unfold get_attribute_node. same.
+  - splitw. unfold set_user_data. destruct (_ && _); [same|]. destruct (N.eqb data 0); intros [= <- _]; apply GW_of;
+      (apply WF_upd_pres; auto with upres; apply WF_upd_pres; auto with upres; apply WF_self; assumption).
+  - splitw. unfold get_user_data. same.
+  - splitw. unfold release_node. destruct (n_ty (nd h n)); try same;
+      (destruct (_ || _); [same|]; destruct (_ && _); [same|]; intros [= <- _]; apply GW_of; apply WF_kill; apply WF_fold_id_off;
+       apply WF_self; assumption).
+  - splitw. unfold set_id_attribute. destruct (n_ro _); [same|]. destruct (amap_find _ _ _) as [a|]; [|same].
+    destruct isid; intros [= <- _]; apply GW_of; [apply WF_attr_id_on|apply WF_attr_id_off]; apply WF_self; assumption.
+  - splitw. unfold set_id_attribute_node. destruct (n_ro _); [same|].
+    destruct (if n_nsimpl (nd h a) then _ else _) as [f|]; [|same].
+    destruct (_ && negb _); [same|].
+    destruct isid; intros [= <- _]; apply GW_of; [apply WF_attr_id_on|apply WF_attr_id_off]; apply WF_self; assumption.
+  - splitw. unfold get_element_by_id. same.
 Qed.
 
 Lemma WFheap_init : forall n, WFheap (init_heap n).
